@@ -115,7 +115,11 @@ func (o *c11Origin) obs(id string) []c11Hit {
 // otherSetter applies one of the client's OTHER configuration methods - none of them is about redirects,
 // each must leave the redirect policy the client holds alone - and says which
 func otherSetter(rng *hk.Rand, c *req.Client, o *c11Origin) string {
-	switch rng.Intn(15) {
+	switch rng.Intn(18) {
+	case 15, 16, 17:
+		// debug logging (what DevMode switches on too), the log itself discarded
+		c.SetLogger(req.NewLogger(io.Discard, "", 0)).EnableDebugLog()
+		return "EnableDebugLog()"
 	case 12, 13, 14:
 		// a client-level round-trip middleware: the chain it builds ends in THIS client's exchange
 		c.WrapRoundTripFunc(func(rt req.RoundTripper) req.RoundTripFunc {
@@ -168,6 +172,11 @@ func applyOthers(r *hk.Run, rng *hk.Rand, c *req.Client, o *c11Origin) []string 
 			done = append(done, otherSetter(rng, c, o))
 		}
 		r.Count("client.other-config-after-policy")
+	}
+	if rng.Chance(15) {
+		c.SetLogger(req.NewLogger(io.Discard, "", 0)).EnableDebugLog()
+		done = append(done, "EnableDebugLog()")
+		r.Count("client.debug-log")
 	}
 	return done
 }
@@ -281,12 +290,32 @@ func specAlwaysCopy(rng *hk.Rand) polSpec {
 		always: always, limit: -1}
 }
 
+// a user-defined policy that faults on one particular hop (an "auditing" policy with a bug): it panics
+// when asked about the hop with len(via) == k and permits every other hop.  A fault is no permission.
+var c11AllowFault = true // not inside parallel downloads: their requests run on the library's own goroutines
+
+func specFault(k int) polSpec {
+	return polSpec{coq: "PFault " + hk.CoqNat(k), desc: fmt.Sprintf("user policy panicking at hop %d", k), limit: k,
+		mk: func() req.RedirectPolicy {
+			return func(rq *http.Request, via []*http.Request) error {
+				if len(via) == k {
+					panic(fmt.Sprintf("audit policy: fault at hop %d", k))
+				}
+				return nil
+			}
+		},
+		permit: func(t authority, via []authority) bool { return len(via) != k }}
+}
+
 func specNil() polSpec {
 	return polSpec{coq: "PNil", mk: func() req.RedirectPolicy { return nil }, limit: -1}
 }
 
 // genSpec draws one policy; host lists are taken from [pool] (the authorities the chains will visit).
 func genSpec(rng *hk.Rand, pool []authority) polSpec {
+	if c11AllowFault && rng.Chance(7) {
+		return specFault(rng.Range(1, 3))
+	}
 	switch rng.Intn(8) {
 	case 0:
 		return specMax(rng.Range(-1, 5))
@@ -536,7 +565,7 @@ func runChain(o *c11Origin, c *req.Client, id string, p c11Plan, gate *c11Gate) 
 	return runChainWith(o, c, id, p, gate, nil)
 }
 
-func runChainWith(o *c11Origin, c *req.Client, id string, p c11Plan, gate *c11Gate, tweak func(*req.Request)) c11Result {
+func runChainWith(o *c11Origin, c *req.Client, id string, p c11Plan, gate *c11Gate, tweak func(*req.Request)) (out c11Result) {
 	o.mu.Lock()
 	o.scripts[id] = &c11Script{loc: p.loc, status: p.status, gate: gate}
 	o.mu.Unlock()
@@ -562,6 +591,13 @@ func runChainWith(o *c11Origin, c *req.Client, id string, p c11Plan, gate *c11Ga
 	}
 	var resp *req.Response
 	var err error
+	// a faulting user policy panics out of CheckRedirect, net/http and the call: contained here,
+	// for the oracle the call ended without a response
+	defer func() {
+		if x := recover(); x != nil {
+			out = c11Result{obs: o.obs(id), refused: true, err: fmt.Sprint("panic: ", x)}
+		}
+	}()
 	u := "http://" + p.init.render() + "/start"
 	if p.method == "POST" {
 		resp, err = rq.SetBodyString(p.body).Post(u)
